@@ -116,7 +116,24 @@ def _all(tier):
     pipe("cat3", ("concatenate",))
     pipe("emb3", ("concatenate",), ("integrate", [0]))
     pipe("cat3", ("square",), ("integrate", None), ("conjugate",))
+    pipe("poly", ("square",))
+    pipe("poly", ("conjugate",))
     return out
+
+
+def _is_core(d):
+    """one pipeline per (operator, input family) layer rule: always in the quick slice"""
+    ops = d["circuit"]["ops"]
+    base = d["circuit"]["base"]
+    if len(ops) != 1 or base.get("kind") != "hand":
+        return False
+    key = (ops[0][0], base.get("input", "mixed"), base["name"])
+    return key in {
+        ("integrate", "cat-logits", "nested"), ("integrate", "embedding", "had3"), ("integrate", "gaussian-lp", "single-input"), ("integrate", "gaussian-lp", "nested"),
+        ("square", "cat-logits", "nested"), ("square", "embedding", "had3"), ("square", "gaussian-lp", "nested"), ("square", "poly2", "nested"), ("square", "embedding", "nary-sum"),
+        ("conjugate", "cat-logits", "nested"), ("conjugate", "embedding", "had3"), ("conjugate", "gaussian-lp", "nested"), ("conjugate", "poly2", "nested"),
+        ("differentiate", "poly2", "nested"), ("evidence", "cat-logits", "nested"), ("concatenate", "cat-logits", "nested"),
+    } and (ops[0][0] != "integrate" or ops[0][1] is None or base["name"] == "nested")
 
 
 def cases(tier, seed):
@@ -125,8 +142,10 @@ def cases(tier, seed):
     sems = ["sum-product", "lse-sum", "complex-lse-sum"]
     out = []
     if tier == "quick":
-        rnd.shuffle(allc)
-        for i, c in enumerate(allc[:24]):
+        core = [c for c in allc if _is_core(c)]
+        rest = [c for c in allc if not _is_core(c)]
+        rnd.shuffle(rest)
+        for i, c in enumerate(core + rest[:8]):
             d = dict(c)
             d["semiring"] = sems[(i + seed) % 3]
             out.append(d)
@@ -143,7 +162,7 @@ def cases(tier, seed):
 
 def _fix(d):
     # derivatives take negative values: not representable in the real log-space semiring
-    if d["semiring"] == "lse-sum" and any(o[0] == "differentiate" for o in d["circuit"]["ops"]):
+    if d["semiring"] == "lse-sum" and (any(o[0] == "differentiate" for o in d["circuit"]["ops"]) or str(d["circuit"]["base"].get("input", "")).startswith("poly")):
         d = dict(d)
         d["semiring"] = "complex-lse-sum"
     return d
